@@ -71,7 +71,7 @@ def _get_const_repr(const_node):
         if rank == 0:
             array = onnx.numpy_helper.to_array(tensor_proto).reshape(1)  # noqa: TID251
             return str(array[0])
-        if rank == 1 and tensor_proto.dims[0] < 5:
+        if rank == 1 and 0 < tensor_proto.dims[0] < 5:
             nparray = onnx.numpy_helper.to_array(tensor_proto)  # noqa: TID251
             return repr(nparray.tolist())
     return None
